@@ -656,8 +656,29 @@ for V_ci in V_c:
                 loc=f.loc())
         for role, arg in (('planet', ps[4]), ('star', ps[5]), ('chemistry', ps[1]), ('temperature_profile', ps[2]),
                           ('pressure_profile', ps[3])):
-            ok = any(isinstance(n, ast.Assign) and unparse(n.targets[0]).endswith("['%s']" % role) and
-                     unparse(n.value) == arg for n in ast.walk(f.node))
+            # on the flow: the store kwargs['<role>'] = <component>, written out or as one pass of a loop over a
+            # literal table of (role, component) pairs
+            ok = None
+            for e_ in fl.of('store'):
+                ta_ = atom_of(fl, e_.target)
+                if ta_ is None or ta_.head != 'idx' or len(ta_.args) != 2 or not isinstance(ta_.args[1], RF):
+                    continue
+                if fmt(fl, ta_.args[1]) == repr(role):
+                    ok = bool(ok) or fl.tab.equal(e_.value, fl.tab.name(arg))
+                    continue
+                for lp_ in e_.loops:
+                    it_ = atom_of(fl, lp_.iter_rf[0]) if getattr(lp_, 'iter_rf', None) else None
+                    if it_ is None or it_.head != 'tuple':
+                        continue
+                    el_ = fl.tab.atom('elem', (lp_.iter_rf[0], lp_.index))
+                    if fl.tab.equal(ta_.args[1], fl.tab.atom('idx', (el_, fl.tab.const(0)))) and \
+                            fl.tab.equal(e_.value, fl.tab.atom('idx', (el_, fl.tab.const(1)))):
+                        for pr_ in it_.args:
+                            pa_ = atom_of(fl, pr_) if isinstance(pr_, RF) else None
+                            if pa_ is not None and pa_.head == 'tuple' and len(pa_.args) == 2 and fmt(fl, pa_.args[0]) == repr(role):
+                                ok = bool(ok) or fl.tab.equal(pa_.args[1], fl.tab.name(arg))
+            if ok is None:
+                raise AnalysisError('no store under %r found in a shape this rule reads' % role)
             R.check('3.model.comp', 'ARG', site + '{' + role + '}', 'the %s component built from its own section is passed as %r' % (role, role),
                     ok, key='%s <- ?' % role, detail='component %s is not passed under %r' % (arg, role), loc=f.loc())
     # the construction path is stateless: no caching decorator, defaults dictionary built per call
